@@ -147,6 +147,46 @@ Theorem P1_profile_unchanged : forall c (I : insts) (g : graph) ID P1 C0,
 Proof. exact profile_unchanged. Qed.
 Print Assumptions P1_profile_unchanged.
 
+(** The final result of [profile], cleaning included, in the entry-wise form
+    the shape-building stage consumes: every stored number is the declarative
+    count (soundness) ... *)
+Theorem P1_profile_final_char : forall cfg (I : insts) (G : graph) P C ID,
+  NoDup (dkeys I) ->
+  profile cfg I G = inl (P, C, ID) ->
+  annotate_all (p_tau cfg) (p_inverse cfg) G (adapt I) = inl ID /\
+  NoDup (dkeys P) /\
+  (exists ks, dkeys P = filter (not_in ks) (class_keys (targets_of cfg) I) /\
+              (p_remove_empty cfg = false -> ks = [])) /\
+  dkeys C = class_keys (targets_of cfg) I /\
+  (forall c, In c (class_keys (targets_of cfg) I) -> dget C c = Some (class_count I c)) /\
+  forall c e, In (c, e) P ->
+    dget P c = Some e /\
+    (forall p m k cd card n, In (p, m) (c_direct e) -> In (k, cd) m -> In (card, n) cd ->
+       n = occ Direct (p_tau cfg) I G c p k card /\ 0 < n) /\
+    (p_inverse cfg = true ->
+     forall p m k cd card n, In (p, m) (c_inverse e) -> In (k, cd) m -> In (card, n) cd ->
+       n = occ Inverse (p_tau cfg) I G c p k card /\ 0 < n) /\
+    (p_inverse cfg = false -> c_inverse e = []).
+Proof. exact profile_final_char. Qed.
+Print Assumptions P1_profile_final_char.
+
+(** ... and every positive declarative count is stored (completeness), except
+    under type keys that are class keys removed by the cleaning. *)
+Theorem P1_profile_final_complete : forall cfg (I : insts) (G : graph) P C ID,
+  NoDup (dkeys I) ->
+  profile cfg I G = inl (P, C, ID) ->
+  forall c e, In (c, e) P ->
+  forall p k, (In k (class_keys (targets_of cfg) I) -> In k (dkeys P)) ->
+    (forall card, 0 < occ Direct (p_tau cfg) I G c p k card ->
+       exists m cd, In (p, m) (c_direct e) /\ In (k, cd) m /\
+                    In (card, occ Direct (p_tau cfg) I G c p k card) cd) /\
+    (p_inverse cfg = true ->
+     forall card, 0 < occ Inverse (p_tau cfg) I G c p k card ->
+       exists m cd, In (p, m) (c_inverse e) /\ In (k, cd) m /\
+                    In (card, occ Inverse (p_tau cfg) I G c p k card) cd).
+Proof. exact profile_final_complete. Qed.
+Print Assumptions P1_profile_final_complete.
+
 (** ** (c) direct features do not depend on the inverse flag (feeds C14) *)
 
 (** [strip_i]/[strip_c] erase the inverse component of an instance / class
